@@ -135,8 +135,17 @@ def gen_field(rng, kind):
     return rng.choice(['hello', '', 'a b', 'x:y'])
 
 
+# @SQ lines with several non-standard tags in non-alphabetical order (as samtools writes TP/AN): a small fixed
+# pool, so that identical lines are repeated within a text, across headers that are merged later, and against
+# equal references added through the API; comparing two such references must leave both as they are
+TAGGED_SQ = ['@SQ\tSN:%s\tLN:10\t%s' % (nm, tg) for nm in NAMES[:3]
+             for tg in ('XB:y\tXA:x', 'TP:linear\tAN:one\tab:p', 'zz:1\tXA:x\tMM:2')]
+
+
 def gen_line(rng):
     x = rng.random()
+    if x > 0.88:
+        return rng.choice(TAGGED_SQ)
     if x < 0.03:
         return rng.choice(['', '@', '@S', 'SQ\tSN:A\tLN:10', '@XX\tab:c', '@CO', '@SQ', '@HD', '@RG', '@PG', '@SQ\tSN:A',
                            '@CO\t', '@HD\tVN', '@SQ\tSN:A\tL', '@RG\tI', '@PG\tID'])
